@@ -23,7 +23,7 @@ CHECKS = {
         'technique': 'property-based testing (Hypothesis) + exhaustive enumeration of short streams; round-trip and truncation oracle over a scripted socket',
         'text': 'Generated message sequences are written by the real send_msg and read back by the real recv_msg through a scripted socket that '
                 'cuts the stream according to a generated plan; every composition of the 8-byte and 16-byte streams and every truncation offset '
-                'of them is enumerated, longer streams get boundary-relative cuts. The oracle is the round trip plus "truncation => ConnectionClosedError, '
+                'of them is enumerated, longer streams get boundary-relative cuts; the sending side is additionally run over transports whose send/sendmsg accept only q bytes per call (same byte stream required). The oracle is the round trip plus "truncation => ConnectionClosedError, '
                 'never a value, never a spin". Exploration, not proof: long streams are sampled.',
         'note': 'Trusts the socket model (recv returns 1..n bytes, b"" at EOF, ConnectionResetError on RST); real kernels are not in the loop.',
     },
@@ -32,7 +32,7 @@ CHECKS['C07'] = {
     'engine': 'POOLSIM', 'level': 'exploration', 'design_ref': 'DESIGN.md 3.2, 4 (C07)',
     'technique': 'property-based testing: Hypothesis-generated schedule tapes + exhaustive DFS of all schedules of small pool configurations, reference multiset oracle',
     'text': 'The real Pool.run is executed against simulated workers whose every progress/death/ready-order decision is taken from a generated tape; '
-            'all schedules of small configurations (<=3 workers, <=3 inputs, 1 kill) are enumerated exhaustively, larger ones are sampled. Oracle: the run '
+            'all schedules of small configurations (<=3 workers, <=3 inputs, 1 kill; also with equal input items, a transient enqueue failure, a dead worker still reporting is_alive()) are enumerated exhaustively, larger ones are sampled. Oracle: the run '
             'ends by return or PoolError (no internal error, no deadlock, no livelock) and, with retry, the results are exactly the multiset f(inputs).',
     'note': 'Trusts that the simulated workers follow the real result-pipe protocol (checked every run by trace equivalence with real thread/process/remote '
             'workers) and that Pool yields control only at enqueue and wait.',
@@ -55,7 +55,7 @@ CHECKS['C13'] = {
             'canonical form that captures sharing; opt-in graphs are checked with remote=False; pickle/copy/deepcopy/ForkingPickler are checked to never see '
             'the flag after remote pickling; all 1-3 level inheritance chains over {no/plain/remote/**kwargs __getstate__, __reduce__} are enumerated '
             'against a reference consistency rule.',
-    'note': 'Canonical form trusts repr() for opaque stdlib values; class menu is fixed (11 opt-in, 9 plain classes).',
+    'note': 'Canonical form trusts repr() for opaque stdlib values; class menu is fixed (14 opt-in classes with twins, 12 plain classes incl. two that merely derive from the marker base).',
 }
 CHECKS['C14'] = {
     'engine': 'GRAPH', 'level': 'exploration', 'design_ref': 'DESIGN.md 3.4, 4 (C14)',
@@ -73,15 +73,19 @@ CHECKS['C15'] = {
             'the fresh-thread result; 2-4 threads are held inside their loads simultaneously with distinct patch values.',
     'note': 'Patches addressing non-dict states are excluded (undefined by the property); three open findings matched by structural triggers.',
 }
-ENGINES.append({'name': 'INJECT', 'path': 'harness/site/verif_inject.py', 'serves_properties': ['C01', 'C03', 'C06', 'C16', 'C20'],
+ENGINES.append({'name': 'INJECT', 'path': 'harness/site/verif_inject.py', 'serves_properties': ['C01', 'C03', 'C06', 'C16', 'C17', 'C20'],
                 'kind_free_text': 'sitecustomize line tracer injected into every child through PYTHONPATH: lands the real terminate()/a signal/a pause at the '
-                                  'n-th traced line of the work thread; harness-side rendezvous files, per-scenario census, AST region classification'})
+                                  'n-th traced line of the work thread, of the parent-side forwarding thread of a remote worker or of the child-side control thread of a process worker; '
+                                  'harness-side rendezvous files, per-scenario census, AST region classification'})
+ENGINES.append({'name': 'FAKEHOST', 'path': 'harness/fakehost.py', 'serves_properties': ['C04', 'C06'],
+                'kind_free_text': 'a remote host played by the harness over real TCP sockets: speaks the server+child side of the protocol for one worker, answers k inputs and then '
+                                  'vanishes (control connection reset / closed / silent, data connection silent for ever)'})
 CHECKS['C01'] = {
     'engine': 'INJECT', 'level': 'fault_enumeration', 'design_ref': 'DESIGN.md 3.1, 4 (C01)',
     'technique': 'fault injection at generated/enumerated line-level landing points (Hypothesis-chosen index into a per-scenario census) with a scenario-derived outcome oracle',
     'text': 'Real workers of all six classes are run with a generated ending: own return/exception (incl. BaseException and untransferable exceptions), graceful '
             'terminate landing at the n-th traced line of the child run loop, SIGKILL/SIGTERM at the n-th line, external SIGKILL while blocked sending a 0.3-4 MB '
-            'result, a result that is slow to unpickle observed through wait(t) polling. After death a generated script of repeated reads must show one of the two legal shapes with an error allowed by the scenario, and never '
+            'result, a result that is slow to unpickle observed through wait(t) polling, a final user_state or a partial result that the parent cannot rebuild. After death a generated script of repeated reads must show one of the two legal shapes with an error allowed by the scenario, and never '
             'change, raise or block. Every landing index is enumerated for thread/process one-shot workers in the quick tier.',
     'note': 'Line granularity (not opcode); landings inside stdlib frames are represented by the calling pyworkers line; one open finding (process except-handler window).',
 }
@@ -91,30 +95,34 @@ CHECKS['C03'] = {
     'text': 'For all six classes the child is held at its n-th traced line, the real terminate(timeout=5, force=False) travels the real control path and the '
             'exception surfaces at that line. Oracle: terminate returns True, worker dead, outcome = terminated shape or own outcome; delivery inside the target '
             'try body requires the terminated shape and the finally marker written by the worker thread. An endless target makes a lost exception visible as '
-            'terminate returning False. Idle persistent workers are terminated uninstrumented.',
+            'terminate returning False. Idle persistent workers are terminated uninstrumented, and with the child-side control thread (which receives the request, injects the '
+            'exception and acknowledges) held at a generated line for a moment.',
     'note': 'Line granularity for all kinds (CPython 3.12.1 does not deliver opcode events to non-main threads reliably, see DESIGN.md 6); one open finding (process except-handler window, shared with C01).',
 }
 CHECKS['C06'] = {
     'engine': 'INJECT', 'level': 'fault_enumeration', 'design_ref': 'DESIGN.md 3.1, 4 (C06)',
-    'technique': 'fault injection (terminate / SIGKILL / SIGTERM at a generated line of the persistent child loop, poison items) with a prefix oracle on the result stream',
+    'technique': 'fault injection (terminate / SIGKILL / SIGTERM at a generated line of the persistent child loop, poison items, forced kill of a stuck child, a remote host that vanishes) with a prefix oracle on the result stream read by a consumer that starts before or after the death',
     'text': 'Persistent workers of the three kinds get 0-5 items and an ending landing at a generated line of do_work/_send_result/_cleanup/_run; the values '
             'read after death must be a prefix of the expected sequence, the stream must end (queue.Empty / iterator stops / marker or EOF on a caller-supplied pipe) '
-            'and raw counters must be consecutive.',
-    'note': 'The parent-side forwarding thread of the remote kind is held at a generated line while the child is SIGKILLed (terminate/target-exception landings there are not enumerated); one open finding (thread kind + supplied pipe).',
+            'and raw counters must be consecutive. The consumer either reads after the death or is already iterating results_iter() (blocked in next_result()) when the end comes; '
+            'inputs may override a default by keyword; a child stuck in an item that swallows the termination exception is ended by the forced part of terminate(); a fake remote host '
+            'vanishes after k answers.',
+    'note': 'The parent-side forwarding thread of the remote kind is held at a generated line while the child is SIGKILLed (terminate/target-exception landings there are not enumerated); two open findings with one root cause (thread kind: end marker skipped when terminate lands in the finally block).',
 }
 CHECKS['C16'] = {
     'engine': 'INJECT', 'level': 'exploration', 'design_ref': 'DESIGN.md 4 (C16)',
     'technique': 'property-based testing over generated incarnation chains with a pause/terminate injector and a last-assigned-value reference model',
     'text': 'Stateful subclasses of all six classes assign generated values to user_state; endings return/raise/terminate@n; the parent reads user_state, has_error, '
             'result in a generated order; chains of up to three incarnations pass the state on by re-creation or restart(); a paused child lets the parent read '
-            'during the alive phase.',
+            'during the alive phase. Late-phase cases hold the child right after it handed over its final result (process kinds) or the parent-side forwarding thread between '
+            'final result and final state (remote kinds) while the parent calls wait(t) and reads: init_state until something reported the worker dead, the last assigned value afterwards.',
     'note': 'For terminate endings any prefix of the assignments is accepted as final state (the exact cut is not pinned).',
 }
 CHECKS['C20'] = {
     'engine': 'WIRE', 'level': 'fault_enumeration', 'design_ref': 'DESIGN.md 3.3, 4 (C20)',
     'technique': 'fault enumeration over the server-to-client handshake (every byte offset of the control-address message, sampled offsets of the runtime-info message, FIN/RST, refusal, silence) with a scripted peer, plus child self-kill at enumerated pre-identity lines; hang-guard oracle + process census',
     'text': 'A scripted peer plays the server side of the RemoteWorker handshake and fails it at a generated point; process/remote children kill themselves at the '
-            'n-th traced line before reporting their identity; unknown context ids and unreachable ports are tried. The constructor must return a worker with a '
+            'n-th traced line before reporting their identity; unknown context ids, unreachable ports and work that cannot be serialised (lock / socket in the arguments or initial state, lambda or local function as target) are tried. The constructor must return a worker with a '
             'foreign pid that answers wait(), or raise, within 15 s, and no process tagged with the case may survive a failed construction.',
     'note': '15 s is the hang bound; the server being killed at each step is represented by the peer dropping both connections.',
 }
@@ -122,7 +130,7 @@ CHECKS['C11'] = {
     'engine': 'WIRE', 'level': 'fault_enumeration', 'design_ref': 'DESIGN.md 3.3, 4 (C11)',
     'technique': 'fault enumeration: recorded real client byte streams replayed by raw sockets cut at generated offsets (FIN/RST/garbage) and failing control-channel steps, sequences of 1-4 faulty clients; liveness + fresh round-trip + concurrent healthy worker oracle',
     'text': 'The data-connection streams of five request kinds are recorded from the real client code (socket tee) and replayed by faulty clients against a real '
-            'server; after each sequence the server must be alive, serve a fresh RemoteWorker correctly and must not have disturbed a concurrently running healthy worker.',
+            'server (every second shard starts it with close_on_none=True, as run_server() and the command line do); after each sequence the server must be alive, serve a fresh RemoteWorker correctly and must not have disturbed a concurrently running healthy worker.',
     'note': 'Clients that stay connected but silent forever are not modelled; quick tier samples offsets (message boundaries +-1, first 14 bytes, random), thorough enumerates every offset up to 1500.',
 }
 ENGINES.append({'name': 'OS', 'path': 'harness/injcases.py', 'serves_properties': ['C02', 'C04', 'C05', 'C09', 'C12', 'C17', 'C18', 'C19'],
@@ -137,18 +145,18 @@ CHECKS['C02'] = {
 }
 CHECKS['C04'] = {
     'engine': 'OS', 'level': 'exploration', 'design_ref': 'DESIGN.md 3.5, 4 (C04)',
-    'technique': 'property-based testing over generated call histories (wait/terminate/is_alive/close x timeouts x force) on cooperative, exception-swallowing, sleeping, GIL-holding and SIGSTOPped children; time-bound + OS-liveness oracle',
-    'text': 'Real workers run one of seven behaviours; a generated history of up to four calls is applied and every call is judged: bounded duration '
+    'technique': 'property-based testing over generated call histories (wait/terminate/is_alive/close x timeouts x force) on cooperative, exception-swallowing, sleeping, GIL-holding, SIGSTOPped and lingering children and on a remote host that vanished; time-bound + OS-liveness oracle',
+    'text': 'Real workers run one of nine behaviours (the last one against a remote host played by the harness that resets / closes / silences its control connection and goes silent on the data connection); a generated history of up to four calls is applied and every call is judged: bounded duration '
             '(3*timeouts + 10 s), True only if the worker and its child pid are gone, immediate True on dead / finished / not-run workers, forced terminate of '
             'process/remote children always succeeds, False only while the child exists, and no signal to the caller.',
-    'note': 'This is the one property where wall-clock is the verdict; the bound only separates bounded from blocked. Thread kinds are limited to cooperative/swallowing targets with force=False.',
+    'note': 'This is the one property where wall-clock is the verdict; the bound only separates bounded from blocked. Thread kinds are limited to cooperative/swallowing targets with force=False. One open finding (host silent on both connections).',
 }
 CHECKS['C05'] = {
     'engine': 'OS', 'level': 'exploration', 'design_ref': 'DESIGN.md 4 (C05)',
     'technique': 'model-based property testing: generated operation sequences (enqueue / next_result / call / close / wait / late enqueue / read past end) on real persistent workers checked step by step against a 15-line reference model of the merge rule and the result stream',
     'text': 'Persistent thread/process/remote workers with generated list-or-tuple defaults and kwargs run an argument-echoing, argument-mutating target; every value '
             'read is compared with the reference model on pristine deep copies, the stream after wait() must be exactly the remaining results then queue.Empty forever, '
-            'result == accepted == delivered, enqueue after close raises WorkerClosedError.',
+            'result == accepted == delivered, enqueue after close raises WorkerClosedError; gated schedules deliver the last result exactly before / after the k-th read and hold the child thread before _init_child() while the parent already closes / enqueues.',
     'note': 'Op lists are interpreted against model preconditions (inapplicable ops are skipped) instead of Hypothesis rule-based machines, so a case is a plain replayable JSON list; wait() with unread 1 MiB results is excluded (documented deadlock).',
 }
 CHECKS['C17'] = {
@@ -156,12 +164,13 @@ CHECKS['C17'] = {
     'technique': 'property-based testing over generated pre-restart states (fresh, unread results, queued inputs, closed, dead by exception, SIGKILLed, stuck) x 1-3 restarts x results-pipe flavour with an equivalence oracle on the new incarnation',
     'text': 'Each generated case drives a real persistent worker into a state, calls restart(timeout=0.5) up to three times and checks the new incarnation: alive, same '
             'name/userid/defaults, new id and old pid gone, call(x) returns the value for x (no stale result), counter restarts from zero; a thread worker stuck in an '
-            'uncooperative target must raise RuntimeError and keep tracking its thread.',
+            'uncooperative target must raise RuntimeError and keep tracking its thread. Two more case kinds: Pool.restart_workers() over a pool that contains such an unstoppable worker (the pool must '
+            'still hold every worker afterwards), and restart() of a remote worker whose old forwarding thread is held while it forwards its last result (restart raises or the new stream never shows it).',
     'note': 'States are reached with short sleeps; the oracle does not depend on them (every legal pre-state is accepted).',
 }
 CHECKS['C19'] = {
     'engine': 'OS', 'level': 'exploration', 'design_ref': 'DESIGN.md 4 (C19)',
-    'technique': 'model-based property testing: generated operation lists (create/release/terminate/restart/concurrent active_children()/autoclose blocks/creation bursts) against the model set of live workers, plus weak-reference retention check',
+    'technique': 'model-based property testing: generated operation lists (create/release/terminate/restart/concurrent active_children() spelled through Worker, a subclass or an instance/autoclose blocks/creation bursts/running workers the caller keeps no reference to) against the model set of live workers, plus weak-reference retention check',
     'text': 'All six classes are created, finished, terminated and restarted in generated order; every active_children() call (also from 2-3 threads at once) must yield '
             'exactly the workers whose is_alive() is True, once each; finished workers must become garbage after a further call; leaving autoclose_active_children() '
             'must leave every registered worker dead and its child process gone.',
@@ -171,14 +180,14 @@ CHECKS['C12'] = {
     'engine': 'OS', 'level': 'exploration', 'design_ref': 'DESIGN.md 4 (C12)',
     'technique': 'property-based testing over generated server populations (0-4 children in mixed states, contexts) x stop method x delay, with a process-census and parent-outcome oracle',
     'text': 'A private real server per case gets a generated mix of cooperative / exception-swallowing / idle / busy / finished / in-context children and contexts, '
-            'is stopped by terminate() or SIGTERM after a generated delay, and within 10 s every process started for the case must be gone and every parent-side '
+            'is stopped by terminate(), terminate(force=False), terminate(timeout=0.5) (whose force stage SIGTERMs the server while it is still stopping its children), terminate() followed by a SIGTERM after a generated delay, or SIGTERM, and within 10 s every process started for the case must be gone and every parent-side '
             'worker must be dead with has_error True (finished ones unchanged) without any parent call blocking.',
     'note': 'WorkerTerminatedError is demanded only in the all-cooperative, graceful, past-start-up configuration; stop during worker start-up is sampled by delay 0 only.',
 }
 CHECKS['C18'] = {
     'engine': 'OS', 'level': 'exploration', 'design_ref': 'DESIGN.md 4 (C18)',
     'technique': 'model-based property testing: generated operation lists over context ids against a dictionary model of the server context table, with server health probes and a process census',
-    'text': 'create / duplicate create / delete / delete-unknown / start worker / start worker in unknown context / enqueue / wait are generated over ids 1-3 on a real '
+    'text': 'create / duplicate create / delete / delete-unknown / start worker / start worker in unknown context / enqueue (optionally overriding the context default by keyword, followed by a call without it) / wait are generated over ids 1-3 on a real '
             'server; ValueError on taken ids, first registration stays in force, results equal the context target with its defaults, delete ends workers and frees '
             'the id, the server stays healthy and no process started during the case survives deleting everything.',
     'note': 'Each case runs on the shard server (restarted when a case breaks it).',
@@ -186,9 +195,9 @@ CHECKS['C18'] = {
 CHECKS['C09'] = {
     'engine': 'POOLSIM', 'level': 'exploration', 'design_ref': 'DESIGN.md 3.2, 3.5, 4 (C09)',
     'technique': 'property-based testing over pool histories: tape-scheduled simulated pools (runs / restart_workers / kills / add_worker between runs) with a per-run multiset and liveness oracle, plus generated histories on real mixed pools with a process-census oracle at pool exit',
-    'text': 'Bookkeeping part: thousands of multi-run histories on simulated workers check that each run returns exactly its own inputs, that PoolError needs all '
+    'text': 'Bookkeeping part: thousands of multi-run histories on simulated workers (incl. dead workers that still report is_alive() for one more run) check that each run returns exactly its own inputs, that PoolError needs all '
             'workers dead also after restarts, that known-dead workers get no work and restarted ones do. OS part: real thread/process/remote pools with SIGKILLed, '
-            'stuck, attached and failing-to-register workers are left normally, by exception, close() or terminate() under varied close_timeout/force, after which '
+            'stuck, attached, failing-to-register workers and workers whose work failed during a run while their process lingers are left normally, by exception, close(), terminate() or a close() interrupted by KeyboardInterrupt inside the with-block under varied close_timeout/force, after which '
             'no process of the pool may survive (unless forced termination was disabled and a worker is stuck).',
     'note': 'The OS part is small in the quick tier (about 220 histories); a stuck worker disables later run/restart steps (it violates run()\'s premise).',
 }
